@@ -46,7 +46,7 @@ def _call(idx):
 def run_case(rng, idx, tier):
     kA = O.KINDS[idx % 10]; kB = O.KINDS[(idx // 10) % 10]
     sA, sB, cls, truth = pairs.make_pair(rng, kA, kB)
-    oA, oB, L = pairs.scene(sA, sB)
+    oA, oB, L = pairs.scene(sA, sB, k=1e-5)
     A, B = pairs.build_pair(sA, sB, rng, 0.2)     # 20% of the colliders reach their pose through update_pose()
     tol = TOL * L
     viol = []; inconcl = []; worst = {}
